@@ -20,7 +20,7 @@ func C15(r *core.Report) {
 		"R3 single ordered consumer - exactly one goroutine is started for the flusher and only that function receives from the queue; R4 drain before close - WaitGroup.Add precedes every send on the queue, Done is on the normal path after the callback, and Wait precedes close(queue) in the deferred shutdown; " +
 		"R5 group delimitation - the element matching the flush kind is sent as the group's parent by address of a per-iteration variable and the inner loop is left; end of file sends the remaining objects as a final group; ignored kinds are dropped only after the offset was advanced. " +
 		"R6 the section length the offsets are advanced by comes from carreader.ReadSectionLength, which returns the decoded length together with the number of prefix bytes really consumed (the counting reader's counter), not a recomputed varint width. " +
-		"R7 the wrapper that invokes the user callback skips it only on a path that established that the group's parent is nil: a block with no (non-ignored) children is still delivered. R8 the branch that drops an object as ignored is taken only after the comparison with the flush kind came out false. Not decided: exactly-once delivery for all schedules (follows from R2-R4 plus channel FIFO, which is trusted)."
+		"R7 the wrapper that invokes the user callback skips it only on a path that established that the group's parent is nil: a block with no (non-ignored) children is still delivered. R8 the branch that drops an object as ignored is taken only after the comparison with the flush kind came out false. R9 no function of the carreader package assigns to a field of the parsed CAR header. Not decided: exactly-once delivery for all schedules (follows from R2-R4 plus channel FIFO, which is trusted)."
 	r.Assumptions = []string{"channel FIFO; sync.WaitGroup semantics"}
 	p := r.Prog
 	checkReadSectionLength(r, "C15.R6")
@@ -45,6 +45,7 @@ func C15(r *core.Report) {
 	c15Groups(r, run)
 	c15ParentAlwaysDelivered(r)
 	c15IgnoreAppliesToChildrenOnly(r)
+	c15HeaderKeptAsParsed(r, "C15.R9")
 	r.Floor("C15.R8", 1)
 	r.Floor("C15.R7", 1)
 	r.Floor("C15.R1", 5)
